@@ -98,10 +98,25 @@ func yamlFor(pkg string, r row, extra string) string {
 	return b.String()
 }
 
+const coreModels = `models:
+  Int32: {model: github.com/99designs/gqlgen/graphql.Int32}
+  Int64: {model: github.com/99designs/gqlgen/graphql.Int64}
+  Uint: {model: github.com/99designs/gqlgen/graphql.Uint}
+  Uint32: {model: github.com/99designs/gqlgen/graphql.Uint32}
+  Uint64: {model: github.com/99designs/gqlgen/graphql.Uint64}
+  UID: {model: github.com/99designs/gqlgen/graphql.UintID}
+  IID: {model: github.com/99designs/gqlgen/graphql.IntID}
+  Time: {model: github.com/99designs/gqlgen/graphql.Time}
+  Duration: {model: github.com/99designs/gqlgen/graphql.Duration}
+  UUID: {model: github.com/99designs/gqlgen/graphql.UUID}
+  Map: {model: github.com/99designs/gqlgen/graphql.Map}
+  Any: {model: github.com/99designs/gqlgen/graphql.Any}
+`
+
 func projects() []*Project {
 	var ps []*Project
 	for _, r := range rows {
-		ps = append(ps, &Project{Name: "core_" + r.name, Probe: "core", Univ: true, Config: yamlFor("core_"+r.name, r, "")})
+		ps = append(ps, &Project{Name: "core_" + r.name, Probe: "core", Univ: true, Config: yamlFor("core_"+r.name, r, coreModels)})
 	}
 	// extra probes: directory probes/<name>/ with its own gqlgen.yml.tmpl ("PKG" replaced)
 	ents, _ := os.ReadDir(filepath.Join(verifRoot, "probes"))
